@@ -407,6 +407,49 @@ impl<'a> G<'a> {
         }
     }
 
+    /// Randomness and list arithmetic with extreme operands, void operands next to lists.
+    fn random_fault_site(&mut self, indent: usize) {
+        let ext: &[&str] = &["2147483647", "-2147483647", "2147483646", "1073741824", "-1073741825", "0", "1", "-1", "65536"];
+        let m = self.m();
+        let a = *self.rng.pick(ext);
+        let b = *self.rng.pick(ext);
+        match self.rng.below(9) {
+            0 => self.line(indent, &format!("~ SEED_RANDOM({a})")),
+            1 => self.line(indent, &format!("{m} rnd {{RANDOM({a}, {b})}}")),
+            2 => {
+                self.line(indent, &format!("~ SEED_RANDOM({a})"));
+                self.line(indent, &format!("{m} rnd {{RANDOM(1, 6)}} {{~a{m}|b{m}|c{m}}}"));
+            }
+            3 if !self.list_vars.is_empty() => {
+                let lv = self.rng.pick(&self.list_vars).clone();
+                self.line(indent, &format!("{m} lrnd {{LIST_RANDOM({lv})}} {{RANDOM(1, 3)}} {{LIST_RANDOM({lv})}} {{RANDOM({a}, 5)}}"));
+            }
+            4 if !self.list_vars.is_empty() => {
+                let lv = self.rng.pick(&self.list_vars).clone();
+                let op = *self.rng.pick(&["+", "-"]);
+                self.line(indent, &format!("{m} linc {{{lv} {op} {a}}}"));
+            }
+            5 if !self.list_vars.is_empty() && !self.funcs.is_empty() => {
+                // a list next to a function result (void when the function has no return)
+                let lv = self.rng.pick(&self.list_vars).clone();
+                let f = self.rng.pick(&self.funcs).clone();
+                let args: Vec<String> = (0..f.1).map(|_| self.int_atom()).collect();
+                let op = *self.rng.pick(&["+", "-", "==", "!=", "?", "^", ">", "and"]);
+                if self.rng.chance(1, 2) {
+                    self.line(indent, &format!("{m} lvoid {{{lv} {op} {}({})}}", f.0, args.join(", ")));
+                } else {
+                    self.line(indent, &format!("{m} voidl {{{}({}) {op} {lv}}}", f.0, args.join(", ")));
+                }
+            }
+            6 if !self.list_vars.is_empty() => {
+                let lv = self.rng.pick(&self.list_vars).clone();
+                self.line(indent, &format!("{m} lrange {{LIST_RANGE({lv}, {a}, {b})}} {{LIST_VALUE({lv}) + {a}}}"));
+            }
+            7 => self.line(indent, &format!("{m} pow {{POW({a}, {b})}} {{INT({a}.5)}} {{FLOOR({b})}} {{{a} mod {b}}}")),
+            _ => self.line(indent, &format!("{m} minmax {{MIN({a}, {b})}} {{MAX({a}, {b})}} {{{a} - {b}}} {{-({a})}}")),
+        }
+    }
+
     fn message_site(&mut self, indent: usize) {
         // a site that raises a warning or an error carrying a unique identifier
         self.msg_id += 1;
@@ -599,6 +642,7 @@ impl<'a> G<'a> {
             }
             15 | 18 if self.cfg.message_sites && !in_func && !self.in_shared => self.message_site(indent),
             17 if self.cfg.fault_prone && !in_func => self.wrap_site(indent),
+            19 if self.cfg.fault_prone => self.random_fault_site(indent),
             16 if self.cfg.glue => {
                 let m = self.m();
                 self.line(indent, &format!("{m} glued <>"));
@@ -671,6 +715,14 @@ impl<'a> G<'a> {
     }
 
     fn knot_body(&mut self, next: &str, allow_choices: bool) {
+        if self.cfg.threads && !self.threads.is_empty() && !self.in_shared && self.rng.chance(1, 3) {
+            // fork a thread early: the host then stops line by line inside the forked thread
+            let t = self.rng.pick(&self.threads).clone();
+            if self.rng.chance(1, 2) {
+                self.text_line(0);
+            }
+            self.line(0, &format!("<- {t}"));
+        }
         let n = 1 + self.rng.below(self.cfg.stmts.max(1));
         for _ in 0..n {
             if allow_choices && self.cfg.choices && self.rng.chance(1, 4) {
@@ -768,7 +820,11 @@ pub fn render(rng: &mut Rng, cfg: &GenCfg) -> String {
         for i in 0..nl {
             let name = format!("{}L{i}", g.cfg.prefix);
             let ni = 2 + g.rng.below(3);
-            let items: Vec<String> = (0..ni).map(|k| format!("{}i{i}{}", g.cfg.prefix, (b'a' + k as u8) as char)).collect();
+            let mut items: Vec<String> = (0..ni).map(|k| format!("{}i{i}{}", g.cfg.prefix, (b'a' + k as u8) as char)).collect();
+            if g.cfg.list_ties && g.rng.chance(1, 2) {
+                // the same bare item name in several lists: which list a bare `dup` means must not depend on hash order
+                items.push(format!("{}dup", g.cfg.prefix));
+            }
             // with `list_ties` items share values inside a list and across lists; otherwise every
             // item of the program has its own value (list i uses i*10+1 ..)
             let ties = g.cfg.list_ties;
@@ -928,7 +984,13 @@ pub fn render(rng: &mut Rng, cfg: &GenCfg) -> String {
         g.knot = 70 + i;
         g.temps.clear();
         g.line(0, &format!("=== {t} ==="));
-        if g.rng.chance(1, 2) {
+        // 0-3 lines of its own before the choices: the host can stop (save, evaluate a function,
+        // switch flow, pause) while the story is in the middle of a forked thread
+        let nl = g.rng.below(4);
+        for _ in 0..nl {
+            if g.rng.chance(1, 4) {
+                g.assign(0);
+            }
             g.text_line(0);
         }
         let m = g.m();
